@@ -197,6 +197,41 @@ extern "C" fn nat_apply(ctx: *mut TsRunContext, _this: *mut TsRunValue, args: *m
     }
 }
 
+/// calls its first argument (a function) with its second argument and AFTERWARDS reads all
+/// of its own arguments again: returns [result, arg1, arg2, ...]. The function it calls is
+/// free to call native functions itself (with more arguments than this call had), so the
+/// argument array of this call must survive nested native calls.
+extern "C" fn nat_apply_then_args(ctx: *mut TsRunContext, _this: *mut TsRunValue, args: *mut *mut TsRunValue, argc: usize, _ud: *mut c_void, _err: *mut *const c_char) -> *mut TsRunValue {
+    unsafe {
+        if argc < 2 || args.is_null() {
+            return std::ptr::null_mut();
+        }
+        let f = *args;
+        let mut a = [*args.add(1)];
+        let r = tsrun_call(ctx, f, std::ptr::null_mut(), a.as_mut_ptr(), 1);
+        let out = tsrun_array_new(ctx);
+        if out.value.is_null() {
+            return std::ptr::null_mut();
+        }
+        if !r.value.is_null() {
+            tsrun_array_push(ctx, out.value, r.value);
+            tsrun_value_free(r.value);
+        } else {
+            let u = tsrun_undefined(ctx);
+            tsrun_array_push(ctx, out.value, u);
+            tsrun_value_free(u);
+        }
+        for i in 1..argc {
+            let v = *args.add(i);
+            if v.is_null() {
+                continue;
+            }
+            tsrun_array_push(ctx, out.value, v);
+        }
+        out.value
+    }
+}
+
 impl Driver {
     fn new(seed_family: &str, shard: u64, n: u64, scripts: bool) -> Driver {
         let ctx = unsafe { tsrun_new() };
@@ -770,7 +805,7 @@ impl Driver {
                 29 => {
                     // native callbacks that re-enter the API
                     self.op("native_function");
-                    let names: [(&str, TsRunNativeFn); 4] = [("natEcho", nat_echo), ("natMake", nat_make), ("natThrow", nat_throw), ("natApply", nat_apply)];
+                    let names: [(&str, TsRunNativeFn); 5] = [("natEcho", nat_echo), ("natMake", nat_make), ("natThrow", nat_throw), ("natApply", nat_apply), ("natApplyThenArgs", nat_apply_then_args)];
                     for (n, f) in names {
                         let c = cstr(n);
                         let r = tsrun_native_function(self.ctx, c.as_ptr(), f, 2, std::ptr::null_mut());
@@ -793,6 +828,21 @@ impl Driver {
                             }
                         }
                         Err(e) => self.problem("unexpected-error", format!("native callback script failed: {}", e)),
+                    }
+                    // native -> script -> native (with more arguments) -> ... three levels deep; every
+                    // level reads its own arguments after the nested call returned
+                    let nested = "var r = natApplyThenArgs(function(v){ var g = []; for (var i = 0; i < 40; i++) { g.push({i: i}); } var inner = natApplyThenArgs(function(w){ return natEcho({deep: w}, 1, 2, 3, 4, 5, 6, 7).deep + natMake(w).doubled; }, v + 1, 'b1', {b: 2}, [3], 'b4', 'b5'); return [natEcho({inner: v}, 'x', 'y', 'z').inner, inner]; }, 5, {tag: 'outer'}, 'a2', [1, [2]]); JSON.stringify(r)";
+                    match self.run_script(nested, None) {
+                        Ok((s, v)) => {
+                            let want = "s:[[5,[18,6,\"b1\",{\"b\":2},[3],\"b4\",\"b5\"]],5,{\"tag\":\"outer\"},\"a2\",[1,[2]]]";
+                            if s != want {
+                                self.problem("content", format!("nested native callbacks: a callback read {} after the nested call, expected {}", truncate(&s, 240), want));
+                            }
+                            if !v.is_null() {
+                                tsrun_value_free(v);
+                            }
+                        }
+                        Err(e) => self.problem("unexpected-error", format!("nested native callback script failed: {}", e)),
                     }
                 }
                 30 | 31 => self.order_round_trip(),
